@@ -31,4 +31,9 @@ impl StringExpr {
 }
 pub struct AstSilentComment { pub text: String, pub span: Span }
 pub struct AstLoudComment { pub text: Interpolation, pub span: Span }
-pub enum AstStmt { SilentComment(AstSilentComment) }
+pub struct AstPlainCssImport { pub url: Interpolation, pub modifiers: Option<Interpolation>, pub span: Span }
+pub struct AstSassImport { pub url: String, pub span: Span }
+pub enum AstImport { Plain(AstPlainCssImport), Sass(AstSassImport) }
+pub struct AstImportRule { pub imports: Vec<AstImport> }
+// statements: only the variants the slices build
+pub enum AstStmt { SilentComment(AstSilentComment), ImportRule(AstImportRule) }
